@@ -1211,9 +1211,12 @@ class ChoicePayloadDecoder(ConstructedPayloadDecoderBase):
                     **dict(options, allowEoo=True))
 
             else:
+                # the header is already consumed: what follows is the
+                # payload of the chosen component, never the end-of-octets
+                # of the (untagged) CHOICE itself
                 iterator = decodeFun(
                     substrate, asn1Object.componentType.tagMapUnique,
-                    tagSet, length, state, **dict(options, allowEoo=True))
+                    tagSet, length, state, **options)
 
             for component in iterator:
 
